@@ -31,13 +31,17 @@ def query_lit(counts, bits, level, mask, r):
 class Case(object):
     """One (molecule, conformer, options) input run on the implementation, with its model check expression."""
 
-    def __init__(self, name, mol, cid, o, bits=2 ** 32, counts=False):
+    def __init__(self, name, mol, cid, o, bits=2 ** 32, counts=False, reuse=None):
         self.name, self.mol, self.cid, self.o, self.bits, self.counts = name, mol, cid, o, bits, counts
         self.facts = molfacts.mol_facts(mol, cid)
         self.err = None
         self.f = None
         try:
-            self.f, self.obs, self.k = molfacts.impl_run(mol, cid, o, bits=bits, counts=counts)
+            if reuse is not None:       # an existing Fingerprinter object that has processed other conformers before
+                reuse.run(cid, mol)
+                self.f, self.obs, self.k = reuse, molfacts.observe(reuse), int(reuse.current_level)
+            else:
+                self.f, self.obs, self.k = molfacts.impl_run(mol, cid, o, bits=bits, counts=counts)
         except Exception as e:  # noqa
             self.err = fpgen.err_of(e)
             self.exc = '%s: %s' % (type(e).__name__, str(e)[:120])
